@@ -1,11 +1,12 @@
 import Rivaas.Proto
 import Rivaas.Spec.RealIP
 import Rivaas.Model.RealIPText
+import Rivaas.Model.RemoteAddr
 /-
 Driver for C18. Case line (raw header text + the `net` table for every candidate item):
-  <id> <maxHops> <peer> <peerTrusted> <nh> { X <value> | S <value> }*
+  <id> <maxHops> <RemoteAddr> <nh> { X <value> | S <value> }*
        <ntbl> { <item> 0 | <item> 1 <canonical> <trusted> }*  =>  R <result> | P
-The model splits and trims the header text itself (`splitAndTrim`, `parseOneIP`), classifies every
+The model derives the peer from RemoteAddr itself (`net.SplitHostPort` is modelled), splits and trims the header text itself (`splitAndTrim`, `parseOneIP`), classifies every
 item through the table and runs the walk; the oracle `specOK` is evaluated on what the
 implementation returned.
 -/
@@ -23,13 +24,12 @@ def pEntry : P (Bytes × Option (Bytes × Bool)) := do
   let r ← opt (do let ip ← str; let t ← bool; pure (ip, t))
   pure (item, r)
 
-def pReq : P RawReq := do
+def pReq : P WireReq := do
   let mh ← nat
-  let peer ← str
-  let pt ← bool
+  let ra ← str
   let hs ← list pRawHdr
   let tbl ← list pEntry
-  pure { maxHops := mh, peer := peer, peerTrusted := pt, hdrs := hs, tbl := tbl }
+  pure { maxHops := mh, remoteAddr := ra, hdrs := hs, tbl := tbl }
 
 /-- observation: `R <result>` or `P` (panic) -/
 def pObs : P (Option Bytes) := do
@@ -42,7 +42,7 @@ def step (line : String) : String :=
   | some (id, inp, obs) =>
     match runP pReq inp, runP pObs obs with
     | some r, some o =>
-      match r.parse with
+      match r.toRaw.bind RawReq.parse with
       | none =>
         -- the model produced a candidate item the harness' table does not list: model and
         -- implementation disagree on the text layer (never guess a classification)
